@@ -58,6 +58,8 @@ TokClauses(e) ==
      \cup F(e.rb[1] = (IF rb.ok THEN 1 ELSE 0) /\ (rb.ok => e.rb[2] = rb.end /\ e.rb[3] = rb.val), "C13", "ReadBool")
      \cup F(e.rn[1] = (IF rn.ok THEN 1 ELSE 0) /\ (rn.ok => e.rn[2] = rn.end), "C13", "ReadNull")
      \cup F(\A i \in 1..Len(e.ex) : e.ex[i][2] = 1 => (~t.eof /\ TypeClass(t.type) = e.ex[i][1]), "C13", "reader_not_type_exclusive")
+     \* beyond the listed properties (a note): the name of every value of the exported TokenType
+     \cup F(\A i \in 1..Len(e.tn) : e.tn[i].s = TokenName(e.tn[i].t), "NOTE", "ext_token_type_name")
      \cup F(e.unch = 1, "C16", "input_modified")
 
 \* ---- C12 ----
